@@ -8,6 +8,7 @@ import procoracle as po
 FAMILIES = ['solver', 'process', 'curve', 'membrane']
 BRIDGES = ['br_permcomp_', 'br_sepfactor_', 'br_idealcurve_', 'br_proc_', 'br_nonideal_', 'br_metric_', 'br_pm_', 'br_perm_', 'br_solve_it1_membrane']
 PROPS_V = 'Props/C08.v'
+EXTRA_TARGETS = ['Model/NumCheck.vo']
 BUDGET = {'quick': 120, 'thorough': 3000}
 ORACLE_RULE = ('random membranes (experiments in kg, SI or GPU; feed temperature equal to or off the experiment temperature) x mixtures x {NRTL, UNIQUAC} x 3 '
                'permeate modes x feed states: standalone flux calculation vs permeate-composition helper vs separation-factor helper vs one-point ideal curve vs '
@@ -73,6 +74,14 @@ def oracle(rng, tier):
             continue
         yield {'kind': '%s:%s:%s:%s' % (cfg['kind'], cfg['mode'], ct, cfg['units']), 'case': po.describe(cfg), 'ok': ok, 'detail': detail,
                'nontrivial': ct == 'UNIQUAC' or cfg['units'] != 'kg/(m2*h*kPa)' or cfg['mode'] != 'vac'}
+
+
+def correspondence(tier, seed):
+    import corr_numeric
+    budget = {'process': 16, 'solver': 16, 'membrane': 10}
+    if tier == 'thorough':
+        budget = {k: v * 12 for k, v in budget.items()}
+    return corr_numeric.run(seed, budget, nmax=30 if tier == 'quick' else 200, tag='C08')
 
 
 def replay(rep):
